@@ -3,6 +3,8 @@ package props
 import (
 	"fmt"
 	"math"
+	"runtime"
+	"sync"
 
 	"github.com/pion/rtcp"
 
@@ -294,6 +296,80 @@ func runC14(c *core.Ctx) {
 	})
 	// (5) SSRC lists of every length 0..255
 	c.Exhaustive("SSRC list lengths 0..255", 256)
+	// encoding is a function of the bitrate alone, also when many goroutines encode different
+	// bitrates at the same time (a memo of "the last exponent", a shared scratch value): every
+	// goroutine checks its own outputs against the integer reference; the monitor shares nothing
+	c.Section("concurrent-encode", c.N(16, 160), func(cs *core.Case) {
+		c.WatchdogOff(true)
+		defer c.WatchdogOff(false)
+		prev := runtime.GOMAXPROCS(8)
+		defer runtime.GOMAXPROCS(prev)
+		const G = 8
+		per := int(c.N(60000, 600000))
+		seeds := make([]uint64, G)
+		for i := range seeds {
+			seeds[i] = cs.R.U64()
+		}
+		type bad struct {
+			bits     uint32
+			got      [3]byte
+			wantE    uint8
+			wantM    uint32
+			failures int
+		}
+		results := make([]bad, G)
+		var pool [6]uint32
+		for i := range pool {
+			pool[i] = uint32(127+18+cs.R.Intn(60))<<23 | uint32(cs.R.Intn(1<<23))
+		}
+		var wg sync.WaitGroup
+		start := make(chan struct{})
+		for g := 0; g < G; g++ {
+			wg.Add(1)
+			go func(g int) {
+				defer wg.Done()
+				r := core.NewRand(seeds[g])
+				// the same handful of bitrates of different exponents for all goroutines (so that two of
+				// them encode the same value at the same time while a third has just encoded another),
+				// each goroutine walking through them in its own order
+				set := pool
+				for i := len(set) - 1; i > 0; i-- {
+					j := r.Intn(i + 1)
+					set[i], set[j] = set[j], set[i]
+				}
+				p := rtcp.ReceiverEstimatedMaximumBitrate{SenderSSRC: uint32(g)}
+				buf := make([]byte, 20)
+				<-start
+				for i := 0; i < per; i++ {
+					bits := set[i%len(set)]
+					p.Bitrate = math.Float32frombits(bits)
+					if _, err := p.MarshalTo(buf); err != nil {
+						results[g].failures++
+						continue
+					}
+					e, m := rembRefFast(bits)
+					if buf[17] != e<<2|byte(m>>16) || buf[18] != byte(m>>8) || buf[19] != byte(m) {
+						if results[g].failures == 0 {
+							results[g] = bad{bits: bits, got: [3]byte{buf[17], buf[18], buf[19]}, wantE: e, wantM: m}
+						}
+						results[g].failures++
+					}
+				}
+			}(g)
+		}
+		close(start)
+		wg.Wait()
+		cs.Eval(uint64(G * per))
+		cs.DistinctN(uint64(G * 6))
+		cs.Count("concurrent-encode/goroutine-runs")
+		for g, b := range results {
+			if b.failures > 0 {
+				cs.Fail("concurrent/encode-differs-from-reference", core.W{"goroutine": g, "calls_per_goroutine": per, "wrong_outputs": b.failures, "first_bitrate_bits": fmt.Sprintf("%#x", b.bits), "first_bitrate": math.Float32frombits(b.bits),
+					"got_wire_17_19": fmt.Sprintf("%02x %02x %02x", b.got[0], b.got[1], b.got[2]), "expected_exponent": b.wantE, "expected_mantissa": b.wantM})
+				return
+			}
+		}
+	})
 	// the count octet against the number of entries actually present, beyond 255 entries too (where
 	// a comparison in 8 bits wraps): a frame is accepted exactly when the octet is the number
 	entriesSet := []int{0, 1, 2, 3, 254, 255, 256, 257, 258, 259, 300, 511, 512, 513, 767, 768, 1023, 1024, 1025, 4096, 16378}
